@@ -1,7 +1,8 @@
 """C20 Cutting propagation short never makes a claim wrong."""
 import re
 
-from astlib import last, calls, find_fn, find_item, method_calls, render, site, strip, walk
+from astlib import last, calls, find_fn, find_item, fns_in_file, method_calls, render, site, strip, walk
+import facts
 from pathcond import conditions_to, fact_str, facts_str, let_env
 import c06
 import c07
@@ -97,6 +98,22 @@ def rule_cut(ctx, R="C20.1"):
         ctx.check(R, key + "/cut/stops-the-loop", bool(stopping), "the cut must clear the loop flag (or leave the loop) unconditionally", site(CFG, tests[0][0]))
         writes = [render(x)[:60] for n_, _k in tests for x in walk(n_["then"]) if (x["k"] == "MethodCall" and x["method"] in WRITERS) or (x["k"] == "Call" and not render(x["func"]).startswith(("debug", "trace", "warn")))]
         ctx.check(R, key + "/cut/writes-nothing", not writes, "calls on the cut edge: %s" % writes, site(CFG, tests[0][0]))
+        # what the cut records, nobody asks for: a field assigned on the cut edge (besides the loop flag) must not be read
+        # outside this file - a pass that behaves differently after a cut (e.g. keeps quiet) turns `no fact yet` into a claim
+        recorded = sorted({render(x["l"]).replace(" ", "")[5:] for n_, _k in tests for x in walk(n_["then"]) if x["k"] == "Assign" and render(x["l"]).replace(" ", "").startswith("self.") and render(x["l"]) != flag})
+        askers = []
+        if recorded:
+            accessors = {f_["name"] for q_, f_ in fns_in_file(CFG) if f_.get("body") and f_["name"] not in ("propagate_values", "propagate_degrees", "new") and any(("self.%s" % r_) in render(f_["body"]).replace(" ", "") for r_ in recorded)}
+            for file_ in facts.ast():
+                if file_ == CFG or file_.startswith("program_structure_tests"):
+                    continue
+                for q_, f_ in fns_in_file(file_):
+                    if not f_.get("body") or "tests" in q_:
+                        continue
+                    for m_ in walk(f_["body"]):
+                        if (m_["k"] == "MethodCall" and m_["method"] in accessors) or (m_["k"] == "Field" and m_.get("member") in recorded):
+                            askers.append("%s::%s asks `%s`" % (file_.rsplit("/", 1)[-1], f_["name"], render(m_)[:40]))
+        ctx.check(R, key + "/cut/what-the-cut-records-is-not-consulted", not askers, ("the cut records %s; read by: %s" % (recorded, sorted(set(askers))[:4])) if askers else ("the cut edge records %s, read nowhere outside cfg.rs" % (recorded or "nothing")), site(CFG, tests[0][0]))
         ctx.check(R, key + "/cut/no-else", all(n_["else"] is None for n_, _k in tests), "the time test must not select between two propagation modes", site(CFG, tests[0][0]))
         t = tests[0][0]
         # a cut leaves propagation incomplete: nothing in the function may insist on completeness
